@@ -3264,13 +3264,17 @@ func arrayTypeLen(n *node, sc *scope) (int, error) {
 	if n.typ != nil && n.typ.cat == arrayT {
 		return n.typ.length, nil
 	}
-	max := -1
+	max, prev := -1, -1 // highest element index, and index of the previous element
 	for _, c := range n.child[1:] {
 		var r int
 
 		if c.kind != keyValueExpr {
-			r = max + 1
-			max = r
+			// An element without key follows the previous element.
+			r = prev + 1
+			prev = r
+			if r > max {
+				max = r
+			}
 			continue
 		}
 
@@ -3303,6 +3307,7 @@ func arrayTypeLen(n *node, sc *scope) (int, error) {
 			}
 		}
 
+		prev = r
 		if r > max {
 			max = r
 		}
